@@ -2,7 +2,7 @@
    temporary that holds everything an honest source delivers. *)
 From Coq Require Import ZArith List Bool Lia.
 From FV Require Import Common.ListX Common.PySem Common.PyStr Common.AtomFS Common.Chunk
-  gen.Gen_downloads Model.C19_Model.
+  gen.Gen_downloads gen.Gen_cifar100_cache Model.C19_Model.
 Import ListNotations.
 Local Open Scope Z_scope.
 
@@ -19,6 +19,9 @@ Lemma dl_part_neq path : path ++ download_partial_suffix <> path.
 Proof. apply app_neq_self. discriminate. Qed.
 
 Lemma dc_part_neq dpath : dpath ++ decompress_partial_suffix <> dpath.
+Proof. apply app_neq_self. discriminate. Qed.
+
+Lemma cv_part_neq spath : spath ++ split_partial_suffix <> spath.
 Proof. apply app_neq_self. discriminate. Qed.
 
 (* number of blocks = number of chunks *)
@@ -70,7 +73,7 @@ Proof. induction P; cbn; constructor; assumption. Qed.
 
 Definition untouched (p : str) (e : ev) : Prop :=
   match e with
-  | DCr n | DCl n _ => n <> p
+  | DCr n | DCl n _ | DRm n => n <> p
   | DRn a b => a <> p /\ b <> p
   | _ => True
   end.
@@ -86,6 +89,7 @@ Proof.
   - destruct H as [Ha Hb]. destruct (lookup d a) eqn:E; [|reflexivity].
     rewrite (lookup_set streqb streqb_spec), neq_eqb by exact Hb.
     rewrite (lookup_del streqb streqb_spec), neq_eqb by exact Ha. reflexivity.
+  - rewrite (lookup_del streqb streqb_spec), neq_eqb by exact H. reflexivity.
 Qed.
 
 Lemma untouched_all p es : forall (d : dir), Forall (untouched p) es -> lookup (applys19 d es) p = lookup d p.
@@ -363,6 +367,101 @@ Proof.
   apply (tmp_then_rename_atomic streqb streqb_spec (is_final dpath)); [exact Hd|apply decompress_disciplined].
 Qed.
 
+(* ---- the conversion of cifar100.load_split ------------------------------------------ *)
+
+Lemma cv_loop_untouched p : forall l j acc e a ok,
+  cv_loop j l acc = (e, a, ok) -> Forall (untouched p) e.
+Proof.
+  induction l as [|[b|] l IH]; intros j acc e a ok H; cbn [cv_loop] in H.
+  - injection H as <- _ _. repeat constructor.
+  - destruct (cv_loop (S j) l (acc ++ [b])) as [[e' a'] ok'] eqn:E. injection H as <- _ _.
+    constructor; [exact I|]. eapply IH; eassumption.
+  - injection H as <- _ _. repeat constructor.
+Qed.
+
+Lemma cv_loop_all (P : list Blk) : forall j acc, exists e, cv_loop j (map Some P) acc = (e, acc ++ P, true).
+Proof.
+  induction P as [|b P IH]; intros j acc; cbn [map cv_loop].
+  - eexists. now rewrite app_nil_r.
+  - destruct (IH (S j) (acc ++ [b])) as [e He]. rewrite He. eexists. rewrite <- app_assoc. reflexivity.
+Qed.
+
+Lemma validated_lookup (d : dir) xs t b : lookup (applys19 d (xs ++ [DCl t b; DValidate t])) t = Some (Whole b).
+Proof.
+  change [DCl t b; DValidate t] with ([DCl t b] ++ [@DValidate Blk t]). rewrite app_assoc, applys19_app.
+  change (applys19 ?x [DValidate t]) with x. apply close_lookup.
+Qed.
+
+(* validation is honest: only the complete content P passes *)
+Definition honest_valid (P : list Blk) (x : csource Blk) : Prop := forall c, x_valid x c = true -> c = P.
+
+Lemma stale_untouched (d : dir) part p : part <> p ->
+  Forall (untouched p) (match lookup d part with Some _ => [DEx part; DRm part] | None => [@DEx Blk part] end).
+Proof. intros Hp. destruct (lookup d part); repeat constructor; exact Hp. Qed.
+
+Lemma convert_prefix_good spath P (d : dir) x : good spath P d -> honest_valid P x ->
+  forall k, good spath P (applys19 d (firstn k (fst (convert d spath x)))).
+Proof.
+  intros Hd Hv. unfold convert. set (part := spath ++ split_partial_suffix).
+  assert (Hp : part <> spath) by apply cv_part_neq.
+  destruct (lookup d spath) as [c|] eqn:El; [cbn [fst]; apply safe_good; [exact Hd|repeat constructor]|].
+  assert (Hst := stale_untouched d part spath Hp). set (stale := match lookup d part with Some _ => _ | None => _ end) in *.
+  destruct (cv_loop 0 (x_clients x) []) as [[e acc] ok] eqn:E.
+  assert (He : Forall (untouched spath) e) by (eapply cv_loop_untouched; eassumption).
+  destruct ok; [destruct (x_valid x acc) eqn:Ev|]; cbn [fst].
+  - apply Hv in Ev. subst acc. intros k. rewrite !app_assoc. apply (prefix_good spath part P d); [left; exact El| |].
+    + rewrite <- !app_assoc. repeat (apply Forall_app; split); try exact Hst; try exact He; repeat constructor; exact Hp.
+    + rewrite <- !app_assoc. rewrite (app_assoc [DEx spath]), (app_assoc _ [DCr part]), (app_assoc _ e). apply validated_lookup.
+  - apply safe_good; [exact Hd|]. repeat (apply Forall_app; split); try exact Hst; try exact He; repeat constructor; exact Hp.
+  - apply safe_good; [exact Hd|]. repeat (apply Forall_app; split); try exact Hst; try exact He; repeat constructor; exact Hp.
+Qed.
+
+Lemma convert_success spath P (d : dir) x : lookup d spath = None ->
+  x_clients x = map Some P -> x_valid x P = true ->
+  exists evs, convert d spath x = (evs, true) /\ lookup (applys19 d evs) spath = Some (Whole P) /\
+    lookup (applys19 d evs) (spath ++ split_partial_suffix) = None.
+Proof.
+  intros El Hc Hv. unfold convert. rewrite El, Hc. set (part := spath ++ split_partial_suffix).
+  set (stale := match lookup d part with Some _ => _ | None => _ end).
+  destruct (cv_loop_all P 0 []) as [e He]. rewrite He. change ([] ++ P) with P. rewrite Hv. eexists. split; [reflexivity|].
+  assert (Hp : part <> spath) by apply cv_part_neq.
+  rewrite !app_assoc, applys19_app.
+  set (d1 := applys19 d _).
+  change (applys19 d1 [DRn part spath]) with (AtomFS.apply streqb d1 (Rename part spath)).
+  assert (Ht : lookup d1 part = Some (Whole P)) by apply validated_lookup.
+  split.
+  - rewrite (lookup_rename streqb streqb_spec part spath spath _ _ Ht), (eqb_refl streqb streqb_spec). reflexivity.
+  - rewrite (lookup_rename streqb streqb_spec part spath part _ _ Ht).
+    rewrite neq_eqb by (intros H; apply Hp; now symmetry). now rewrite (eqb_refl streqb streqb_spec).
+Qed.
+
+Lemma convert_reuse spath (d : dir) c x : lookup d spath = Some c -> convert d spath x = ([DEx spath], true).
+Proof. intros H. unfold convert. now rewrite H. Qed.
+
+Lemma convert_disciplined spath (d : dir) x :
+  disciplined_run streqb (is_final spath) d (map (@fs_step19 Blk) (fst (convert d spath x))).
+Proof.
+  unfold convert. set (part := spath ++ split_partial_suffix).
+  assert (Hp : part <> spath) by apply cv_part_neq.
+  destruct (lookup d spath) as [c|] eqn:El; [cbn [fst]; apply untouched_disciplined; repeat constructor|].
+  assert (Hst := stale_untouched d part spath Hp). set (stale := match lookup d part with Some _ => _ | None => _ end) in *.
+  destruct (cv_loop 0 (x_clients x) []) as [[e acc] ok] eqn:E.
+  assert (He : Forall (untouched spath) e) by (eapply cv_loop_untouched; eassumption).
+  destruct ok; [destruct (x_valid x acc)|]; cbn [fst].
+  - rewrite !app_assoc. apply (safe_then_rename_disciplined spath part acc d).
+    + rewrite <- !app_assoc. repeat (apply Forall_app; split); try exact Hst; try exact He; repeat constructor; exact Hp.
+    + rewrite <- !app_assoc. rewrite (app_assoc [DEx spath]), (app_assoc _ [DCr part]), (app_assoc _ e). apply validated_lookup.
+  - apply untouched_disciplined. repeat (apply Forall_app; split); try exact Hst; try exact He; repeat constructor; exact Hp.
+  - apply untouched_disciplined. repeat (apply Forall_app; split); try exact Hst; try exact He; repeat constructor; exact Hp.
+Qed.
+
+Lemma convert_never_tears spath (d : dir) x m : no_torn_final streqb (is_final spath) d ->
+  no_torn_final streqb (is_final spath) (applys19 d (firstn m (fst (convert d spath x)))).
+Proof.
+  intros Hd. rewrite applys19_run, <- firstn_map.
+  apply (tmp_then_rename_atomic streqb streqb_spec (is_final spath)); [exact Hd|apply convert_disciplined].
+Qed.
+
 (* sequences of interrupted calls *)
 Fixpoint after (d : dir) (l : list (call Blk * option nat)) : dir :=
   match l with
@@ -420,6 +519,28 @@ Proof.
   - destruct (decompress_success dpath P (after d l) z H Ho Hc Hcl) as (evs & -> & Hp & _).
     exists evs, (applys19 (after d l) evs). split; [reflexivity|exact Hp].
   - rewrite (decompress_reuse dpath _ _ z H). eexists. eexists. split; [reflexivity|].
+    cbn [applys19 fold_left apply19 fs_step19 AtomFS.apply]. exact H.
+Qed.
+
+Lemma after_good_convert spath P : forall l (d : dir), good spath P d ->
+  Forall (fun ck => exists x, fst ck = CConvert spath x /\ honest_valid P x) l -> good spath P (after d l).
+Proof.
+  induction l as [|[c k] l IH]; intros d Hd Hl; [exact Hd|]. inversion Hl as [|? ? (x & Hc & Hs) Hl']; subst.
+  cbn [fst] in Hc. subst c. cbn [after]. apply IH; [|exact Hl'].
+  destruct (one_call_dir d (CConvert spath x) k) as [k' ->]. cbn [call_events]. now apply convert_prefix_good.
+Qed.
+
+Lemma retry_convert spath P l (d : dir) x : good spath P d ->
+  Forall (fun ck => exists s, fst ck = CConvert spath s /\ honest_valid P s) l ->
+  x_clients x = map Some P -> x_valid x P = true ->
+  exists evs d', one_call (after d l) (CConvert spath x) None = (evs, d', Returned) /\
+    lookup d' spath = Some (Whole P).
+Proof.
+  intros Hd Hl Hc Hv. assert (H := after_good_convert spath P l d Hd Hl).
+  unfold one_call. cbn [call_events]. destruct H as [H|H].
+  - destruct (convert_success spath P (after d l) x H Hc Hv) as (evs & -> & Hp & _).
+    exists evs, (applys19 (after d l) evs). split; [reflexivity|exact Hp].
+  - rewrite (convert_reuse spath _ _ x H). eexists. eexists. split; [reflexivity|].
     cbn [applys19 fold_left apply19 fs_step19 AtomFS.apply]. exact H.
 Qed.
 
